@@ -588,4 +588,22 @@ theorem step_zero_raises (m : Mode) (l v : Bits) (a b : Option Int) :
       ⟨.internal "AssertionError", by simp only [setitemSlice, h]⟩⟩
 
 
+theorem setOp_range_mirror (l : Bits) (b : Bool) (a b' c : Int) (h : setRange (.range a b' c) l.length = false) :
+    setOp .lsb0 l b (.range a b' c) = (setOp .msb0 l.reverse b (.range a b' c)).map List.reverse := by
+  simp only [setOp, List.length_reverse]
+  by_cases hc : c = 0
+  · simp only [hc, if_true]; rfl
+  · simp only [hc, if_false]
+    simp only [setRange, hc, ne_eq, not_false_eq_true, decide_true, Bool.true_and] at h
+    cases hh : (Py.rangeList a b' c).head? with
+    | none => simp only []; exact setMany_mirror b _ l
+    | some first =>
+      cases hl : (Py.rangeList a b' c).getLast? with
+      | none => simp only []; exact setMany_mirror b _ l
+      | some last =>
+        rw [hh, hl] at h
+        simp only [decide_eq_false_iff_not] at h
+        simp only [h, if_false]
+        exact setMany_mirror b _ l
+
 end BM.C12
